@@ -302,6 +302,62 @@ def r7_item_collections(ctx, rep):
                f"directly: [[owner:name({kind})]] raises TypeError instead of linking", py.nloc(fc))
 
 
+def isinstance_tuples(fn: ast.AST, subject: str) -> List[List[str]]:
+    out = []
+    for n in ast.walk(fn):
+        if isinstance(n, ast.Call) and isinstance(n.func, ast.Name) and n.func.id == "isinstance" and len(n.args) == 2 \
+                and ast.unparse(n.args[0]) == subject:
+            t = n.args[1]
+            out.append([e.id for e in (t.elts if isinstance(t, ast.Tuple) else [t]) if isinstance(e, ast.Name)])
+    return out
+
+
+def r8_found_items_have_urls(ctx, rep):
+    """convert_link turns the item found into a link via item.get_url() and raises when that is None.  So every class
+    of entity that find_child can hand out for a documented item kind must have a URL wherever it can be declared:
+    its own page (get_dir), an anchor on its owner's page (the isinstance tuple in get_url), or a get_url override."""
+    py = ctx.py
+    from . import c05
+    st = dict_const(py, "sourceform", "SUBLINK_TYPES")
+    gd = py.func("FortranBase.get_dir")
+    gu = py.func("FortranBase.get_url")
+    selfs = isinstance_tuples(gd, "self")
+    pars = isinstance_tuples(gd, "self.parent")
+    if len(selfs) != 2 or len(pars) != 1:
+        raise AnalysisError("FortranBase.get_dir: expected isinstance(self, A) or (isinstance(self, B) and isinstance(self.parent, P))")
+    uncond, cond = (selfs[0], selfs[1]) if "FortranSourceFile" in selfs[0] else (selfs[1], selfs[0])
+    parents_ok = pars[0]
+    anchored = [c for t in isinstance_tuples(gu, "self") for c in t]
+    if len(anchored) < 4:
+        raise AnalysisError("FortranBase.get_url: anchored-entity tuple not found")
+    concrete = [c for c in py.classes if c.startswith("Fortran") and c not in ("FortranBase", "FortranContainer", "FortranCodeUnit", "FortranSpoof")]
+    sub = lambda c, names: any(py.is_subclass(c, n) for n in names if n in py.classes)
+    for kind, attr in sorted(st.items()):
+        elems = ["FortranInterface", "FortranFunction"] if attr == "constructor" else [c05.LIST_ELEM.get(attr)]
+        if elems[0] is None:
+            raise AnalysisError(f"no element class known for collection {attr!r}")
+        owners = [c for c in concrete if attr in c09.all_self_attrs(py, c)]
+        if attr == "constructor":
+            owners = ["FortranModule"]      # the constructor is looked up in the all_procs of the type's scope
+        for e in elems:
+            r = py.resolve_method(e, "get_url")
+            for o in owners:
+                if r is not None and r[0] != "FortranBase":
+                    how = f"{r[0]}.get_url override"
+                elif sub(e, uncond):
+                    how = "own page"
+                elif sub(e, cond) and sub(o, parents_ok):
+                    how = "own page (declared in a program unit)"
+                elif sub(e, anchored):
+                    how = "anchor on the owner's page"
+                else:
+                    how = None
+                rep.ob(f"item kind {kind!r}: a {e} found in {o}.{attr} has a URL", how is not None,
+                       how or f"get_url() of a {e} declared in a {o} is None (no page: get_dir needs a parent in {parents_ok}; "
+                              f"not in the anchor tuple of get_url): [[x:name({kind})]] finds it and convert_link raises "
+                              f"'Found item ... but no url', aborting the run", py.nloc(gu), nontrivial=how not in ("own page",))
+
+
 RULES = [
     RuleSpec("C11.R6", r6_item_anchors, "[[owner:item]] targets: item anchors exist on the owner's page (shared with C09.R8)", floor=30),
     RuleSpec("C11.R1", r1_kinds, "documented kinds are the implemented kinds", floor=50),
@@ -309,5 +365,6 @@ RULES = [
     RuleSpec("C11.R3", r3_priority, "code spans win", floor=2),
     RuleSpec("C11.R4", r4_conversion_location, "every conversion has a location", floor=7),
     RuleSpec("C11.R5", r5_link_syntax, "reference syntax", floor=8),
+    RuleSpec("C11.R8", r8_found_items_have_urls, "every entity find_child can hand out has a URL", floor=30),
     RuleSpec("C11.R7", r7_item_collections, "item collections searched by find_child are sequences", floor=8),
 ]
